@@ -833,3 +833,238 @@ Qed.
 Theorem tuple_spec args k : args <> [] -> run_tuple res (FUEL + k) args = ROk args [].
 Proof. apply tuple_core. Qed.
 End Theorems.
+
+(* ====================================================================================== *)
+(* Uncurry (Curry f) behaves as f                                                           *)
+Section RoundTrip.
+Variable res : nat -> list (list val) -> val.
+
+Local Arguments eval : simpl never.
+Local Arguments apply : simpl never.
+
+(* the innermost closure Curry builds, applied to the remaining arguments *)
+Lemma curry_inner k (s : sig) n1 t1 ps a1 rest log :
+  s_params s = (n1, t1) :: ps ->
+  guardb (names (s_params s)) (names (s_results s)) = true ->
+  length rest = length ps ->
+  apply res (S (3 + k))
+    (VClo [(n1, a1); ("f", prim_flat s)] (names ps) (names (s_results s))
+       (call_stmt fixed (s_results s) (Call (Var "f") (n1 :: names ps)))) rest log
+  = Ok (prim_results res (length (s_results s)) [a1 :: rest], log ++ [(0, a1 :: rest)]).
+Proof.
+  intros Hp Hg Hl.
+  apply guardb_spec in Hg as (Hgood & Hform & Hnd & Hf). rewrite Hp in Hgood, Hnd. cbn [names map fst] in Hgood, Hnd.
+  cbn [forallb] in Hgood. apply andb_true_iff in Hgood as [Hg1 Hgps].
+  change (map fst ps) with (names ps) in *.
+  cbn [app] in Hnd. apply NoDup_cons_iff in Hnd as [Hn1 Hnd].
+  assert (Hb1 : bindable n1 = true) by (apply good_bindable; assumption).
+  assert (Hn1ps : ~ In n1 (names ps)) by (intros Hi; apply Hn1, in_or_app; left; exact Hi).
+  assert (Hn1rs : ~ In n1 (names (s_results s)))
+    by (intros Hi; apply Hn1, in_or_app; right; apply in_names_results; assumption).
+  assert (Hfps : ~ In "f" (names ps)).
+  { intros Hi. rewrite forallb_forall in Hgps. apply (good_not_f "f"); [apply Hgps, Hi|reflexivity]. }
+  assert (Hlen : length (names ps) = length rest) by (unfold names; rewrite map_length; symmetry; exact Hl).
+  erewrite apply_clo_stmt; [reflexivity|exact Hlen| |].
+  - unfold prim_flat. eapply call_f_flat.
+    + rewrite lookup_var_bind_skip by exact Hfps.
+      rewrite lookup_var_bind_skip by exact Hf.
+      unfold lookup_var. cbn. apply good_not_f in Hg1.
+      apply String.eqb_neq in Hg1. rewrite Hg1. reflexivity.
+    + cbn [lookup_all].
+      rewrite lookup_var_bind_skip by exact Hn1ps.
+      rewrite lookup_var_bind_skip by exact Hn1rs.
+      unfold lookup_var at 1. rewrite Hb1. cbn [lookup]. rewrite String.eqb_refl.
+      rewrite lookup_all_bind; [reflexivity|apply forall_good_bindable; assumption| |exact Hlen].
+      apply NoDup_app_l in Hnd. exact Hnd.
+    + cbn. rewrite Hp. cbn. f_equal. exact Hl.
+  - apply prim_results_length.
+Qed.
+
+Theorem uncurry_curry_id (s0 : sig) a1 rest k :
+  s_variadic s0 = false ->
+  guardb (names (rename_blank fixed "param_" (s_params s0))) (names (s_results s0)) = true ->
+  2 <= length (s_params s0) ->
+  length (a1 :: rest) = length (s_params s0) ->
+  run_roundtrip res fixed (FUEL + k) s0 (prim_flat s0) (a1 :: rest)
+  = ROk (prim_results res (length (s_results s0)) [a1 :: rest]) [(0, a1 :: rest)].
+Proof.
+  intros Hv Hg H2 Hl. unfold run_roundtrip, add_curry.
+  destruct (2 <=? length (s_params s0)) eqn:E; [|apply Nat.leb_gt in E; lia].
+  set (s := rename_sig fixed "param_" s0).
+  assert (Hlen : length (s_params s) = length (s_params s0)) by apply rename_blank_length.
+  assert (Hpf : prim_flat s0 = prim_flat s) by (unfold prim_flat; rewrite Hlen; reflexivity).
+  assert (Hgs : guardb (names (s_params s)) (names (s_results s)) = true) by exact Hg.
+  destruct (s_params s) as [|[n1 t1] ps] eqn:Hp; [cbn in Hlen; lia|].
+  unfold curry_term, csig_of_curry, curry_sig. rewrite Hp. cbn [fst s_params s_results s_variadic].
+  change (s_variadic s) with (s_variadic s0). rewrite Hv.
+  unfold sig_names_ok. rewrite Hp. rewrite <- Hp in Hgs |- * at 1.
+  rewrite (guard_sig_names_ok _ _ Hgs). cbn [orb negb].
+  (* facts about the names *)
+  pose proof Hgs as Hgs'. rewrite Hp in Hgs'. cbn [names map fst] in Hgs'. change (map fst ps) with (names ps) in Hgs'.
+  apply guardb_spec in Hgs' as (Hgood & Hform & Hnd & Hf).
+  cbn [forallb] in Hgood. apply andb_true_iff in Hgood as [Hg1 Hgps].
+  assert (Hb1 : bindable n1 = true) by (apply good_bindable; assumption).
+  assert (Hok_inner : lam_ok (names ps) (names (s_results s)) = true).
+  { apply lam_ok_good; [apply forall_good_bindable; assumption|assumption|].
+    cbn [app] in Hnd. apply NoDup_cons_iff in Hnd. tauto. }
+  assert (Hok_all : lam_ok (n1 :: names ps) (names (s_results s)) = true).
+  { apply lam_ok_good; [cbn [forallb]; rewrite Hb1; apply forall_good_bindable; assumption|assumption|exact Hnd]. }
+  (* Curry(F) *)
+  change (FUEL + k) with (S (11 + k)) at 1.
+  rewrite decl_value_lam by reflexivity.
+  change (FUEL + k) with (2 + (10 + k)) at 1.
+  rewrite apply_clo_lam by (try reflexivity; apply lam_ok_single).
+  cbn [bind]. change (bindable "f") with true. cbv iota.
+  (* Uncurry of that *)
+  unfold run_uncurry, add_uncurry. cbn [c_outer c_inner c_results c_variadic c_rname length Nat.eqb].
+  rewrite (rename_blank_good "param_" [(n1, t1)]) by (cbn; rewrite Hg1; reflexivity).
+  rewrite (rename_blank_good "innerParam_" ps) by exact Hgps.
+  cbn [orb].
+  unfold csig_names_ok. cbn [c_outer c_inner c_results c_rname names map fst].
+  change (map fst ps) with (names ps). change (map fst (s_results s)) with (names (s_results s)).
+  rewrite lam_ok_single, Hok_inner. cbn [andb negb].
+  unfold uncurry_term, uncurry_sig. cbn [c_outer c_inner c_results s_params s_results app names map fst].
+  change (map fst ps) with (names ps). change (map fst (s_results s)) with (names (s_results s)).
+  unfold run_term. change (FUEL + k) with (S (11 + k)) at 1.
+  rewrite decl_value_lam by reflexivity.
+  cbn [apply_chain].
+  change (FUEL + k) with (2 + (10 + k)) at 1.
+  rewrite apply_clo_lam by (try reflexivity; exact Hok_all).
+  cbn [bind]. change (bindable "f") with true. cbv iota.
+  assert (Hlr : length rest = length ps) by (cbn in Hl, Hlen; lia).
+  assert (Hlen' : length (names ps) = length rest) by (unfold names; rewrite map_length; symmetry; exact Hlr).
+  assert (Hn1ps : ~ In n1 (names ps)).
+  { cbn [app] in Hnd. apply NoDup_cons_iff in Hnd as [Hx _]. intros Hi. apply Hx, in_or_app. left. exact Hi. }
+  assert (Hn1rs : ~ In n1 (names (s_results s))).
+  { cbn [app] in Hnd. apply NoDup_cons_iff in Hnd as [Hx _]. intros Hi. apply Hx, in_or_app. right.
+    apply in_names_results; assumption. }
+  assert (Hfps : ~ In "f" (names ps)).
+  { intros Hi. rewrite forallb_forall in Hgps. apply (good_not_f "f"); [apply Hgps, Hi|reflexivity]. }
+  pose proof (good_not_f _ Hg1) as Hn1f. apply String.eqb_neq in Hn1f.
+  change (FUEL + k) with (S (S (S (S (3 + (5 + k)))))).
+  erewrite apply_clo_stmt; [reflexivity|cbn [length]; rewrite Hlen'; reflexivity| |apply prim_results_length].
+  (* f(n1)(names ps) in the environment of the uncurried closure, f being Curry's closure *)
+  rewrite eval_S, eval_S, eval_S.
+  cbn [bind]. rewrite Hb1.
+  assert (Ef : forall W, lookup_var ((n1, a1) :: bind (names ps) rest
+               (bind (names (s_results s)) (zeros (names (s_results s))) [("f", W)])) "f" = Some W).
+  { intros W. unfold lookup_var. change (bindable "f") with true. cbv iota. cbn [lookup]. rewrite Hn1f.
+    rewrite lookup_bind_skip by exact Hfps. rewrite lookup_bind_skip by exact Hf.
+    cbn [lookup]. rewrite String.eqb_refl. reflexivity. }
+  rewrite Ef.
+  cbn [lookup_all]. unfold lookup_var at 1. rewrite Hb1. cbn [lookup]. rewrite String.eqb_refl.
+  change (S (3 + (5 + k))) with (2 + (7 + k)) at 1.
+  rewrite apply_clo_lam by (try reflexivity; exact Hok_inner).
+  cbn [bind]. rewrite Hb1.
+  rewrite lookup_all_cons_skip by exact Hn1ps.
+  rewrite lookup_all_bind; [|apply forall_good_bindable; assumption| |exact Hlen'].
+  2:{ cbn [app] in Hnd. apply NoDup_cons_iff in Hnd as [_ Hnd]. apply NoDup_app_l in Hnd. exact Hnd. }
+  rewrite Hpf.
+  change (S (S (3 + (5 + k)))) with (S (3 + (6 + k))).
+  apply (curry_inner (6 + k) s n1 t1 ps a1 rest [] Hp); [|exact Hlr].
+  exact Hgs.
+Qed.
+End RoundTrip.
+
+(* ====================================================================================== *)
+(* witnesses                                                                                *)
+Definition res0 : nat -> list (list val) -> val := fun j _ => VBase (Z.of_nat j).
+Definition Ti : ty := TBase "int".
+Definition Ts : ty := TBase "string".
+Definition v1 : val := VBase 1.
+Definition v2 : val := VBase 2.
+Definition v3 : val := VBase 3.
+
+(* --- the guards are satisfiable on non-trivial inputs (blank + a name that already carries the
+       prefix + named results; unnamed parameters; both levels of uncurry blank) --- *)
+Definition ex_sig : sig := mkSig [("_", Ti); ("param_0", Ts); ("c", Ti)] [("r", Ti); ("e", Ts)] false.
+Definition ex_unnamed : sig := mkSig [("", Ti); ("", Ts)] [] false.
+Definition ex_csig : csig := mkCsig [("_", Ti)] "" [("_", Ts); ("innerParam_0", Ti)] [("", Ti)] false.
+
+Example ex_guard_flat :
+  guardb (names (rename_blank fixed "param_" (s_params ex_sig))) (names (s_results ex_sig)) = true
+  /\ names (rename_blank fixed "param_" (s_params ex_sig)) = ["param_0"; "param_1"; "c"].
+Proof. split; reflexivity. Qed.
+
+Example ex_guard_unnamed :
+  guardb (names (rename_blank fixed "param_" (s_params ex_unnamed))) (names (s_results ex_unnamed)) = true.
+Proof. reflexivity. Qed.
+
+Example ex_guard_uncurry :
+  guardb (names (rename_blank fixed "param_" (c_outer ex_csig)) ++
+          names (rename_blank fixed "innerParam_" (c_inner ex_csig))) (names (c_results ex_csig)) = true.
+Proof. reflexivity. Qed.
+
+Example ex_curry : run_curry res0 fixed FUEL ex_sig (prim_flat ex_sig) [v1; v2; v3]
+                   = ROk [VBase 0; VBase 1] [(0, [v1; v2; v3])].
+Proof. exact (plumb_correct_curry res0 ex_sig v1 [v2; v3] 0 eq_refl eq_refl (le_S _ _ (le_n 2)) eq_refl). Qed.
+
+Example ex_flip : run_flip res0 fixed FUEL ex_sig (prim_flat ex_sig) [v1; v2; v3]
+                  = ROk [VBase 0; VBase 1] [(0, [v2; v1; v3])].
+Proof. exact (plumb_correct_flip res0 ex_sig v1 v2 [v3] 0 eq_refl eq_refl eq_refl). Qed.
+
+Example ex_apply : run_apply res0 fixed FUEL ex_unnamed (prim_flat ex_unnamed) [v1; v2]
+                   = ROk [] [(0, [v1; v2])].
+Proof. exact (plumb_correct_apply res0 ex_unnamed [v1] v2 0 eq_refl eq_refl eq_refl). Qed.
+
+Example ex_uncurry : run_uncurry res0 fixed FUEL ex_csig (prim_curried ex_csig) [v1; v2; v3]
+                     = ROk [VBase 0] [(0, [v1]); (1, [v2; v3])].
+Proof. exact (plumb_correct_uncurry res0 ex_csig [v1] [v2; v3] 0 eq_refl eq_refl eq_refl eq_refl eq_refl eq_refl). Qed.
+
+Example ex_roundtrip : run_roundtrip res0 fixed FUEL ex_sig (prim_flat ex_sig) [v1; v2; v3]
+                       = ROk [VBase 0; VBase 1] [(0, [v1; v2; v3])].
+Proof. exact (uncurry_curry_id res0 ex_sig v1 [v2; v3] 0 eq_refl eq_refl (le_S _ _ (le_n 2)) eq_refl). Qed.
+
+(* --- the pinned tree (before repo-patches/C15-fix-unnamed-params.patch): a signature without
+       parameter names gives `return f(, )` in all four plugins --- *)
+Definition w_unnamed : sig := mkSig [("", Ti); ("", Ts)] [("", Ti)] false.
+Definition w_unnamed_c : csig := mkCsig [("a", Ti)] "" [("", Ti); ("", Ts)] [("", Ti)] false.
+
+Theorem plumb_unnamed_refuted :
+  run_curry res0 pinned FUEL w_unnamed (prim_flat w_unnamed) [v1; v2] = RIll
+  /\ run_flip res0 pinned FUEL w_unnamed (prim_flat w_unnamed) [v1; v2] = RIll
+  /\ run_apply res0 pinned FUEL w_unnamed (prim_flat w_unnamed) [v1; v2] = RIll
+  /\ run_uncurry res0 pinned FUEL w_unnamed_c (prim_curried w_unnamed_c) [v1; v2; v3] = RIll
+  /\ (* repaired: *)
+     run_curry res0 fixed FUEL w_unnamed (prim_flat w_unnamed) [v1; v2] = ROk [VBase 0] [(0, [v1; v2])].
+Proof. vm_compute. repeat split; reflexivity. Qed.
+
+(* --- the pinned tree (before repo-patches/C15-fix-void-return.patch): `return f(a, b)` inside a
+       function without results --- *)
+Definition w_void : sig := mkSig [("a", Ti); ("b", Ts)] [] false.
+Definition w_void_c : csig := mkCsig [("a", Ti)] "" [("b", Ti)] [] false.
+
+Theorem plumb_void_refuted :
+  run_curry res0 pinned FUEL w_void (prim_flat w_void) [v1; v2] = RIll
+  /\ run_flip res0 pinned FUEL w_void (prim_flat w_void) [v1; v2] = RIll
+  /\ run_apply res0 pinned FUEL w_void (prim_flat w_void) [v1; v2] = RIll
+  /\ run_uncurry res0 pinned FUEL w_void_c (prim_curried w_void_c) [v1; v2] = RIll
+  /\ run_curry res0 fixed FUEL w_void (prim_flat w_void) [v1; v2] = ROk [] [(0, [v1; v2])].
+Proof. vm_compute. repeat split; reflexivity. Qed.
+
+(* --- open: a parameter (or a named result) called f shadows the function --- *)
+Definition w_f_first : sig := mkSig [("f", Ti); ("b", Ts)] [("", Ti)] false.
+Definition w_f_last : sig := mkSig [("a", Ti); ("f", Ts)] [("", Ti)] false.
+Definition w_f_result : sig := mkSig [("a", Ti); ("b", Ts)] [("r", Ti); ("f", Ts)] false.
+Definition w_f_inner : csig := mkCsig [("a", Ti)] "" [("f", Ti)] [("", Ti)] false.
+
+Theorem plumb_param_f_refuted :
+  run_curry res0 fixed FUEL w_f_first (prim_flat w_f_first) [v1; v2] = RIll
+  /\ run_flip res0 fixed FUEL w_f_last (prim_flat w_f_last) [v1; v2] = RIll
+  /\ run_apply res0 fixed FUEL w_f_first (prim_flat w_f_first) [v1; v2] = RIll
+  /\ run_apply res0 fixed FUEL w_f_last (prim_flat w_f_last) [v1; v2] = RIll
+  /\ run_uncurry res0 fixed FUEL w_f_inner (prim_curried w_f_inner) [v1; v2] = RIll
+  /\ run_curry res0 fixed FUEL w_f_result (prim_flat w_f_result) [v1; v2] = RIll.
+Proof. vm_compute. repeat split; reflexivity. Qed.
+
+(* --- open: uncurry concatenates the two parameter lists without looking for a clash, also
+       between a user's name and a name the generator made up itself --- *)
+Definition w_dup_a : csig := mkCsig [("a", Ti)] "" [("a", Ti)] [("", Ti)] false.
+Definition w_dup_inner : csig := mkCsig [("innerParam_0", Ti)] "" [("_", Ti)] [("", Ti)] false.
+Definition w_dup_param : csig := mkCsig [("_", Ti)] "" [("param_0", Ti)] [("", Ti)] false.
+
+Theorem plumb_uncurry_dup_refuted :
+  run_uncurry res0 fixed FUEL w_dup_a (prim_curried w_dup_a) [v1; v2] = RIll
+  /\ run_uncurry res0 fixed FUEL w_dup_inner (prim_curried w_dup_inner) [v1; v2] = RIll
+  /\ run_uncurry res0 fixed FUEL w_dup_param (prim_curried w_dup_param) [v1; v2] = RIll.
+Proof. vm_compute. repeat split; reflexivity. Qed.
